@@ -2,11 +2,11 @@
    Only statements, [exact] and [Print Assumptions] live here.
    [pf] is the str::parse::<f64> oracle and [un] the char::is_numeric oracle of
    the model: every theorem holds for all of them. *)
-From Coq Require Import ZArith NArith List Bool Reals.
+From Coq Require Import ZArith NArith List Bool Reals SpecFloat.
 From Flocq Require Import Core IEEE754.Binary IEEE754.Bits.
 From GV Require Import Base.Result Model.Num Model.Literals Spec.LitDenote
   Proofs.C14.Digits Proofs.C14.Number Proofs.C14.CharList Proofs.C14.ByteList Proofs.C14.Stores
-  Proofs.C14.DecFloat Proofs.C14.FloatLiteral.
+  Proofs.C14.DecFloat Proofs.C14.FloatLiteral Proofs.C14.FloatSpelling.
 Import ListNotations.
 Local Open Scope N_scope.
 
@@ -77,6 +77,18 @@ Theorem C14_float_rounding : forall neg p e10,
   else f64_of_decimal neg (Npos p) e10 = Binary.B754_infinity 53 1024 neg.
 Proof. exact f64_of_decimal_total. Qed.
 Print Assumptions C14_float_rounding.
+
+(* every finite positive binary64 (mantissa m, exponent e, in range) has a
+   decimal-fraction spelling that evaluates back to exactly it; +0.0 is 0.0 *)
+Theorem C14_float_roundtrip : forall m e (H : SpecFloat.bounded 53 1024 m e = true),
+  parse_simple_number parse_f64 (spell_dyadic m e) = Ok (Flt (Binary.B754_finite 53 1024 false m e H)).
+Proof. exact float_spelling_roundtrip. Qed.
+Print Assumptions C14_float_roundtrip.
+
+Theorem C14_float_zero :
+  parse_simple_number parse_f64 [48; 46; 48] = Ok (Flt (Binary.B754_zero 53 1024 false)).
+Proof. exact zero_spelling. Qed.
+Print Assumptions C14_float_zero.
 
 (* a char-list literal evaluates to exactly the characters between its quotes
    after escape processing: for every quote count q, every list of items
